@@ -320,7 +320,7 @@ fn build_expr(
                 ty,
             }
         }
-        hir::Expr::EStructLiteral { .. } => {
+        hir::Expr::EStructLiteral { fields, .. } => {
             let Some(elab) = results.struct_lit_elab(expr_id) else {
                 return tast::Expr::EVar {
                     name: "<error>".to_string(),
@@ -328,11 +328,76 @@ fn build_expr(
                     astptr: None,
                 };
             };
+            let ty = results.expr_ty(expr_id).cloned().unwrap_or(tast::Ty::TUnit);
+
+            // The constructor takes its arguments in declaration order, but the initialisers
+            // must run in the order they were written. When the two orders differ, bind the
+            // initialisers to temporaries in writing order first.
+            let written: Vec<hir::ExprId> = fields.iter().map(|(_, e)| *e).collect();
+            let elaborated: Vec<hir::ExprId> = elab
+                .args
+                .iter()
+                .filter_map(|arg| match arg {
+                    StructLitArgElab::Expr(e) => Some(*e),
+                    StructLitArgElab::Missing { .. } => None,
+                })
+                .collect();
+            let mut bindings: Vec<tast::Expr> = Vec::new();
+            let mut temporaries: Vec<(hir::ExprId, String, tast::Ty)> = Vec::new();
+            // Names and literals have no effects and cannot fail: their order is immaterial.
+            let order_matters = written.iter().any(|e| {
+                !matches!(
+                    hir_table.expr(*e),
+                    hir::Expr::ENameRef { .. }
+                        | hir::Expr::EUnit
+                        | hir::Expr::EBool { .. }
+                        | hir::Expr::EInt { .. }
+                        | hir::Expr::EInt8 { .. }
+                        | hir::Expr::EInt16 { .. }
+                        | hir::Expr::EInt32 { .. }
+                        | hir::Expr::EInt64 { .. }
+                        | hir::Expr::EUInt8 { .. }
+                        | hir::Expr::EUInt16 { .. }
+                        | hir::Expr::EUInt32 { .. }
+                        | hir::Expr::EUInt64 { .. }
+                        | hir::Expr::EFloat { .. }
+                        | hir::Expr::EFloat32 { .. }
+                        | hir::Expr::EFloat64 { .. }
+                        | hir::Expr::EString { .. }
+                )
+            });
+            if written != elaborated && order_matters {
+                for (i, e) in written.iter().enumerate() {
+                    let value = build_expr(hir_table, results, *e);
+                    let value_ty = value.get_ty();
+                    let name = format!("structlit{}_{}", expr_id.idx, i);
+                    bindings.push(tast::Expr::ELet {
+                        pat: tast::Pat::PVar {
+                            name: name.clone(),
+                            ty: value_ty.clone(),
+                            astptr: None,
+                        },
+                        value: Box::new(value),
+                        ty: tast::Ty::TUnit,
+                    });
+                    temporaries.push((*e, name, value_ty));
+                }
+            }
+
             let args = elab
                 .args
                 .iter()
                 .map(|arg| match arg {
-                    StructLitArgElab::Expr(e) => build_expr(hir_table, results, *e),
+                    StructLitArgElab::Expr(e) => {
+                        match temporaries.iter().find(|(bound, _, _)| bound == e) {
+                            Some((_, name, value_ty)) => tast::Expr::EVar {
+                                name: name.clone(),
+                                ty: value_ty.clone(),
+                                astptr: None,
+                            },
+                            None => build_expr(hir_table, results, *e),
+                        }
+                    }
                     StructLitArgElab::Missing { expected_ty } => tast::Expr::EVar {
                         name: "<error>".to_string(),
                         ty: expected_ty.clone(),
@@ -340,11 +405,19 @@ fn build_expr(
                     },
                 })
                 .collect::<Vec<_>>();
-            let ty = results.expr_ty(expr_id).cloned().unwrap_or(tast::Ty::TUnit);
-            tast::Expr::EConstr {
+            let literal = tast::Expr::EConstr {
                 constructor: elab.constructor.clone(),
                 args,
-                ty,
+                ty: ty.clone(),
+            };
+            if bindings.is_empty() {
+                literal
+            } else {
+                bindings.push(literal);
+                tast::Expr::EBlock {
+                    exprs: bindings,
+                    ty,
+                }
             }
         }
         hir::Expr::ETuple { items } => {
